@@ -1,9 +1,12 @@
 """C14 - software versions are ordered numerically, component by component (the part observable through a run)."""
 import copy
+import json
+import re
 
 from .. import gen, report, wire, refmodels
 from .common import viol, h, compact_case, CATS
 from . import C13 as c13
+from . import multi as mt
 
 ID = 'C14'
 CLAIM = ('decided in part. Banners of OpenSSH / Dropbear / libssh at versions with 2-4 components drawn from {0..12, 99..101, year-like} (so with multi-digit components) and product '
@@ -16,7 +19,7 @@ TECHNIQUE = 'deterministic simulation as the end-to-end observation point; refer
 LEVEL = 'exploration'
 BUDGET = {'quick': 200, 'thorough': 2400}
 NCASES = {'quick': 1500, 'thorough': 9000}
-RULE = ('cases: (product, version with 2-4 components, patch suffix) x a seeded advertised set. non-trivial: banner version with >= 2 components that the tool recognised; distinct '
+RULE = ('cases: (product, version with 2-4 components, patch suffix) x a seeded advertised set; a fifth of them audited as the second target of one invocation, after the same product at another version. non-trivial: banner version with >= 2 components that the tool recognised; distinct '
         'by (product, version, patch).')
 ASSUMPTIONS = ['a banner whose version the tool does not recognise as a product release (no "(gen) software:" line) is not judged']
 
@@ -55,7 +58,14 @@ def cases(seed, tier):
         if rng.random() < 0.5:
             prof['kex'].append('kex-strict-s-v00@openssh.com')
         prof['gex'] = {'sizes': [], 'style': 'strict'}
-        yield {'product': product, 'version': version, 'patch': patch, 'profile': prof, 'opts': rng.choice([['-n'], ['-j'], ['-n', '-b']]), 'pseed': rng.getrandbits(32)}
+        c = {'product': product, 'version': version, 'patch': patch, 'profile': prof, 'opts': rng.choice([['-n'], ['-j'], ['-n', '-b']]), 'pseed': rng.getrandbits(32)}
+        r2 = gen.case_rng(seed, ID, i, 'after')
+        if r2.random() < 0.2:
+            # the same server audited as the second target of one invocation, after a server of the same product at another version:
+            # what counts as available is a matter of this server's version only
+            v2 = rand_version(r2, product)
+            c['after'] = banner.replace(version, v2, 1) if v2 != version else None
+        yield c
 
 
 def sample(case):
@@ -142,7 +152,29 @@ def run_case(case, ctx):
     out, keys = [], []
     prof, product, version = case['profile'], case['product'], case['version']
     isjson = '-j' in case['opts']
-    rec = ctx.run(gen.server_plan(case['pseed'], list(case['opts']) + ['--skip-rate-test', '-t', '2', 'srv.example:2222'], prof, port=2222))
+    if case.get('after'):
+        other = copy.deepcopy(prof)
+        other['banner'] = case['after']
+        two = [{'kind': 'server', 'host': 'other.example', 'ip': '192.0.2.9', 'port': 2222, 'profile': other},
+               {'kind': 'server', 'host': 'srv.example', 'ip': '192.0.2.10', 'port': 2222, 'profile': prof}]
+        rec = ctx.run(mt.multi_plan({'targets': two, 'pseed': case['pseed'], 'sched': {'policy': 'run_to_block', 'seed': 0}}, list(case['opts']), 1, ctx.scratch()))
+        if rec.get('harness_error'):
+            return {'violations': [], 'keys': []}
+        mine = None
+        if isjson:
+            doc, err = report.parse_json(rec['stdout'])
+            for d in doc if isinstance(doc, list) else []:
+                if mt.json_target(d, two) == 1:
+                    mine = json.dumps(d)
+        else:
+            for b in re.split(r'(?m)^-{80}$', rec['stdout']):
+                if mt.block_target(report.strip_ansi(b), two) == 1:
+                    mine = b
+        if mine is None:
+            return {'violations': [viol('C14 no result for the second target', rec['stdout'][-400:])], 'keys': []}
+        rec = dict(rec, stdout=mine)
+    else:
+        rec = ctx.run(gen.server_plan(case['pseed'], list(case['opts']) + ['--skip-rate-test', '-t', '2', 'srv.example:2222'], prof, port=2222))
     if rec.get('harness_error'):
         return {'violations': [], 'keys': []}
     if rec['status'] not in (0, 2, 3):
@@ -194,4 +226,8 @@ def shrink(case):
     if case['opts'] != ['-n']:
         c = copy.deepcopy(case)
         c['opts'] = ['-n']
+        yield c
+    if case.get('after'):
+        c = copy.deepcopy(case)
+        c['after'] = None
         yield c
